@@ -470,6 +470,8 @@ async def fake_run_test_task(runner, node):
                  test_timeout=params.get("test_timeout"),
                  object_root=params.get("object_root"),
                  dry_run=params.get("dry_run", "no"),
+                 step_params={k2: params[k2] for k2 in params
+                              if k2 == "vm_action" or re.match(r"(check|get|set|unset|push|pop)_(state|mode)", k2)},
                  unknown_placeholder="UNKNOWN" in [r["status"] for r in node.results])
     duration = sim.duration(cls, wid, k, creation=bool(params.get("object_root")))
     sim.running[serial] = ev
